@@ -743,8 +743,10 @@ func (m *senderMachine) Gen(t *rapid.T) SOp {
 			op.AckDelay = 1 << 40
 		}
 		if rapid.IntRange(0, 11).Draw(t, "frttmode") == 0 {
-			op.FreeRTT = rapid.SampledFrom([]int64{1, 999, 1000, 1_000_000, 100_000_000, 10_000_000_000, 3_000_000_000_000,
-				40_000_000_000_000, 31_536_000_000_000_000, 1 << 61}).Draw(t, "frtt")
+			op.FreeRTT = rapid.SampledFrom([]int64{1, 999, 1000, 50_000, 1_000_000, 20_000_000, 100_000_000, 1_000_000_000, 10_000_000_000}).Draw(t, "frtt")
+			if rapid.IntRange(0, 6).Draw(t, "frtthuge") == 0 { // 50 min .. 73 years: the bandwidth estimate reaches zero
+				op.FreeRTT = rapid.SampledFrom([]int64{3_000_000_000_000, 40_000_000_000_000, 31_536_000_000_000_000, 1 << 61}).Draw(t, "frtt")
+			}
 		}
 		op.CE = rapid.IntRange(0, 29).Draw(t, "ce") == 0
 	case "lossto":
